@@ -117,19 +117,30 @@ pub(crate) fn mutated(entry: usize) {
 
 /// The error of a failed ghost operation: its kind is arbitrary among kinds that real code distinguishes
 /// (a wrapper or caller that swallows one particular kind is then exercised).
+pub(crate) static mut SYMBOLIC_ERROR_KINDS: bool = true;
+
 pub(crate) fn io_err() -> io::Error {
-    if kani::any() {
+    // (the `*_std` units, where the real wrappers call `e.kind()` on these values and re-wrap them, use one constant kind:
+    //  the kind-sensitive behaviour of the wrappers is decided by the `wrapper_*` units)
+    if unsafe { !SYMBOLIC_ERROR_KINDS } || kani::any() {
         io::Error::from(ErrorKind::Other)
     } else {
         io::Error::from(ErrorKind::PermissionDenied)
     }
 }
 
-/// Failure of the next fallible file-system step, read from the symbolic fault tape.
+/// Failure of the next fallible file-system step: nondeterministic (every position, every combination). The wrapper
+/// refinement units run the same schedule twice and therefore read the decisions from a symbolic fault tape.
+pub(crate) static mut USE_TAPE: bool = false;
+
 pub(crate) fn fails() -> bool {
     unsafe {
         if !FAULTS {
             return false;
+        }
+        if !USE_TAPE {
+            TAPE_POS += 1; // still counts the fallible steps
+            return kani::any();
         }
         let k = TAPE_POS;
         TAPE_POS += 1;
@@ -401,6 +412,7 @@ pub(crate) fn init(kind: u8, faults: bool, lock_may_be_refused: bool) -> (bool, 
         FAULTS = faults;
         TAPE = if faults { symbolic_tape() } else { [false; TAPE_LEN] };
         TAPE_POS = 0;
+        USE_TAPE = false;
         LEN_TABLE = [kani::any(), len, 0, 0];
     }
     (kani::any(), len)
@@ -456,6 +468,13 @@ pub(crate) fn outcome(r: io::Result<FileLen>) -> Option<u64> {
 macro_rules! ghost_fs_unit {
     (wrappers, $name:ident, $body:block) => { ghost_fs_unit!(wrappers, $name, [], $body); };
     (std, $name:ident, $body:block) => { ghost_fs_unit!(std, $name, [], $body); };
+    (std_const, $name:ident, $body:block) => { ghost_fs_unit!(std_const, $name, [], $body); };
+    (std_const, $name:ident, [$(($p:path, $st:path)),*], $body:block) => {
+        ghost_fs_unit!(std, $name, [$(($p, $st)),*], {
+            unsafe { crate::dedupe::verif_dedupe::SYMBOLIC_ERROR_KINDS = false };
+            $body
+        });
+    };
     (wrappers, $name:ident, [$(($p:path, $st:path)),*], $body:block) => {
         #[kani::proof]
         $(#[kani::stub($p, $st)])*
@@ -559,6 +578,7 @@ fn reset(state: [u8; 4]) {
 
 fn refines<R1, R2>(real: impl FnOnce() -> io::Result<R1>, contract: impl FnOnce() -> io::Result<R2>) {
     init(INV_NONE, true, false);
+    unsafe { USE_TAPE = true };
     let state = arbitrary_state();
     reset(state);
     let r1 = real();
@@ -634,7 +654,7 @@ fn safe_remove_body() {
     }
 }
 ghost_fs_unit!(wrappers, c05_safe_remove, { safe_remove_body() });
-ghost_fs_unit!(std, c05_safe_remove_std, { safe_remove_body() });
+ghost_fs_unit!(std_const, c05_safe_remove_std, { safe_remove_body() });
 
 // ---------------------------------------------------------------------------------------------------------
 // execute(Remove)
@@ -659,7 +679,7 @@ fn remove_body() {
     }
 }
 ghost_fs_unit!(wrappers, c05_execute_remove, { remove_body() });
-ghost_fs_unit!(std, c05_execute_remove_std, { remove_body() });
+ghost_fs_unit!(std_const, c05_execute_remove_std, { remove_body() });
 ghost_fs_unit!(wrappers, c20_lock_first_remove, {
     let (should_lock, ok, _) = remove_harness(false, true);
     lock_post(should_lock, ok);
@@ -714,9 +734,9 @@ fn softlink_body() {
     replace_post(ok, SYM_T);
 }
 ghost_fs_unit!(wrappers, c05_execute_hardlink, { hardlink_body() });
-ghost_fs_unit!(std, c05_execute_hardlink_std, { hardlink_body() });
+ghost_fs_unit!(std_const, c05_execute_hardlink_std, { hardlink_body() });
 ghost_fs_unit!(wrappers, c05_execute_softlink, { softlink_body() });
-ghost_fs_unit!(std, c05_execute_softlink_std, { softlink_body() });
+ghost_fs_unit!(std_const, c05_execute_softlink_std, { softlink_body() });
 ghost_fs_unit!(wrappers, c20_lock_first_hardlink, {
     let (should_lock, ok, _) = hardlink_harness(false, true);
     lock_post(should_lock, ok);
@@ -779,10 +799,10 @@ move_unit!(wrappers, c18_execute_move_rename, true, false);
 move_unit!(wrappers, c18_execute_move_copy, false, false);
 move_unit!(wrappers, c18_execute_move_rename_existing, true, true);
 move_unit!(wrappers, c18_execute_move_copy_existing, false, true);
-move_unit!(std, c18_execute_move_rename_std, true, false);
-move_unit!(std, c18_execute_move_copy_std, false, false);
-move_unit!(std, c18_execute_move_rename_existing_std, true, true);
-move_unit!(std, c18_execute_move_copy_existing_std, false, true);
+move_unit!(std_const, c18_execute_move_rename_std, true, false);
+move_unit!(std_const, c18_execute_move_copy_std, false, false);
+move_unit!(std_const, c18_execute_move_rename_existing_std, true, true);
+move_unit!(std_const, c18_execute_move_copy_existing_std, false, true);
 
 ghost_fs_unit!(wrappers, c20_lock_first_move, {
     let (should_lock, ok, _) = move_harness(false, true, kani::any(), false);
